@@ -577,8 +577,17 @@ class WrappedTable:
         # create relationship to remote side
         rel_name = f"{wrapped_field.field.name}"
         rel_type = f"Mapped[{target_wrapped_table.tablename}]"
+        # a reference into the own table hierarchy is self-referential for SQLAlchemy: without remote_side it is
+        # inferred as ONETOMANY and the foreign key ends up on the wrong row
+        remote_side = ""
+        ancestor = target_wrapped_table
+        while ancestor is not None:
+            if ancestor is self:
+                remote_side = f", remote_side='{target_wrapped_table.full_primary_key_name}'"
+                break
+            ancestor = ancestor.parent_table
         # relationships have to be post updated since since it won't work in the case of subclasses with another ref otherwise
-        rel_constructor = f"relationship('{target_wrapped_table.tablename}', uselist=False, foreign_keys=[{fk_name}], post_update=True)"
+        rel_constructor = f"relationship('{target_wrapped_table.tablename}', uselist=False, foreign_keys=[{fk_name}]{remote_side}, post_update=True)"
         self.relationships.append(
             ColumnConstructor(rel_name, rel_type, rel_constructor)
         )
